@@ -347,3 +347,43 @@ func VerifC04LoginHistory() {
 		}
 	}
 }
+
+// VerifC11AdvanceRequests: the number of work connections the server asks for in advance
+// when a session starts is min(client poolCount, server maxPoolCount), never more.
+func VerifC11AdvanceRequests() {
+	svr := zzService(&zzVerifier{loginOK: true}, zzNoPlugins())
+	mx := zzverif.Choice("maxPoolCount", 4)
+	svr.cfg.Transport.MaxPoolCount = int64(mx)
+	pc := []int{-3, 0, 1, 2, 3, 5}[zzverif.Choice("poolCount", 6)]
+	conn := &zzConn{name: "ctl", closeCh: make(chan struct{})}
+	ctl, err := NewControl(context.Background(), svr.rc, svr.pxyManager, svr.pluginManager, svr.authVerifier, conn, false, &msg.Login{RunID: "r1", PoolCount: pc}, svr.cfg)
+	zzverif.Assume(err == nil)
+	ctl.Start()
+	zzverif.Quiesce()
+	// everything queued for the client so far: the login response went out directly, the rest through the dispatcher
+	reqs := 0
+	for _, m := range conn.written {
+		if _, ok := m.(*msg.ReqWorkConn); ok {
+			reqs++
+		}
+	}
+	n := len(ctl.msgDispatcher.SendChannel())
+	for i := 0; i < n; i++ {
+		if _, ok := (<-ctl.msgDispatcher.SendChannel()).(*msg.ReqWorkConn); ok {
+			reqs++
+		}
+	}
+	want := pc
+	if mx < want {
+		want = mx
+	}
+	if want < 0 {
+		want = 0
+	}
+	zzverif.Assert(reqs == want, "C11.advance.requests==min(client-poolcount,server-maxpoolcount)")
+	if pc > mx {
+		zzverif.Reach("C11.advance.clamped")
+	}
+	_ = conn.Close()
+	zzverif.Quiesce()
+}
